@@ -221,7 +221,7 @@ class Sim:
         lst = hb._exceptions
         e = 'N' if lst is None else str(sum(1 for x in lst if 'Connection dead' in str(x)))
         dls = sorted(t.deadline for t in self.timers)
-        dead_total = sum(1 for l in self.all_lists for x in l if 'Connection dead' in str(x))
+        dead_total = len(self.all_dead())
         hbs = sum(1 for _, d in self.wire_out if d == HB_BYTES)
         return 'n%s R%d r%s w%s t%s e%s T[%s] h%d d%d x%d pi' % (
             fmt(self.now), 1 if hb._running.is_set() else 0, hb._reads_since_check, hb._writes_since_check,
@@ -389,7 +389,14 @@ class Sim:
         return ret
 
     def all_dead(self):
-        return [x for l in self.all_lists for x in l if 'Connection dead' in str(x)]
+        # cumulative: Connection.open() may clear its error list in place (and the same list object can be
+        # installed again), so every 'Connection dead' error ever seen is remembered by identity
+        seen = self.__dict__.setdefault('_dead_objs', {})
+        for l in self.all_lists:
+            for x in l:
+                if 'Connection dead' in str(x):
+                    seen[id(x)] = x
+        return list(seen.values())
 
     forced = None
 
